@@ -332,12 +332,21 @@ func (b *Bus) Baudrate() int {
 }
 
 // SetCANIDBuilder sets the [CANIDBuilder] of the [Bus].
+// If the given builder is nil, the bus goes back to the default CAN-ID builder.
 func (b *Bus) SetCANIDBuilder(canIDBuilder *CANIDBuilder) {
 	if b.canIDBuilder != nil {
 		b.canIDBuilder.removeRef(b.entityID)
 	}
+
+	if canIDBuilder == nil {
+		canIDBuilder = newDefaultCANIDBuilder()
+		b.isDefCANIDBuilder = true
+	} else {
+		b.isDefCANIDBuilder = false
+	}
+
 	b.canIDBuilder = canIDBuilder
-	b.isDefCANIDBuilder = false
+	canIDBuilder.addRef(b)
 }
 
 // CANIDBuilder returns the [CANIDBuilder] of the [Bus].
